@@ -1091,6 +1091,29 @@ func c03CommandRules(c *ctx, desc map[string]any, i int, im, om vl.OMap, st *pip
 		if len(l) != len(st.Plugins) {
 			fail("plugin count changed", fmt.Sprint(len(l)), fmt.Sprint(len(st.Plugins)), "")
 		}
+		// one plugin per string item, one per entry of a mapping item, one per entry of the mapping form
+		if iv, ok := findKV(im, "plugins"); ok {
+			want := -1
+			switch t := iv.(type) {
+			case vl.OMap:
+				want = len(t)
+			case []any:
+				want = 0
+				for _, e := range t {
+					switch x := e.(type) {
+					case string:
+						want++
+					case vl.OMap:
+						want += len(x)
+					default:
+						want = -1 << 20 // ill-typed item: not judged
+					}
+				}
+			}
+			if want >= 0 && want != len(l) {
+				fail("the marshalled plugin list does not have one entry per plugin of the input", fmt.Sprint(len(l)), fmt.Sprint(want), "")
+			}
+		}
 		for j, e := range l {
 			eo, ok := e.(vl.OMap)
 			if !ok || len(eo) != 1 {
